@@ -1528,6 +1528,12 @@ func runMatrix(c *Ctx) error {
 		s = strings.ReplaceAll(s, "err eof", "err x")
 		s = strings.ReplaceAll(s, "err malformed", "err x")
 		s = strings.ReplaceAll(s, "err authFail", "err x")
+		// a client that gives up WITHOUT a denial (at its own key set-up) closes the connection while the
+		// server may or may not still be writing its last message: the server's result is then a matter
+		// of scheduling, not of the protocol (the property oracle reads the server's result directly)
+		if strings.HasPrefix(s, "client[err x] server[") && strings.Contains(s, "] denied=0") {
+			s = "client[err x] server[?] denied=0" + s[strings.Index(s, "] denied=0")+len("] denied=0"):]
+		}
 		return s
 	}
 	return diffBatch(c, "hs", cases, norm)
